@@ -60,6 +60,13 @@ C10_Where(ev) ==
   Success(ev) => CASE ev.e \in {"gensalt", "xgensalt"} -> ev.ret = "static"
                    [] ev.e = "gensalt_ra" -> ev.ret = "heap"
                    [] OTHER -> ev.ret = "out"
+\* C18: a NULL prefix produces exactly what the preferred method's prefix produces
+C18_NullIsPreferred(ev) ==
+  (ev.nprev > 0 /\ ev.nprev < l /\ IsGs(T[ev.nprev].e) /\ ev.prefixnull = 1 /\ T[ev.nprev].prefixnull = 0
+     /\ S!DefaultMethod(Enabled) # "none" /\ T[ev.nprev].prefix = S!PrefixOf[S!DefaultMethod(Enabled)]
+     /\ T[ev.nprev].cd = ev.cd /\ T[ev.nprev].rb = ev.rb /\ T[ev.nprev].rbnull = 0 /\ ev.rbnull = 0
+     /\ T[ev.nprev].nrbytes = ev.nrbytes /\ Size(T[ev.nprev]) = Size(ev))
+  => (Success(ev) = Success(T[ev.nprev]) /\ ev.res = T[ev.nprev].res /\ (~Success(ev) => ev.errno = T[ev.nprev].errno))
 \* ---- C11 ----------------------------------------------------------------
 C11_Cost(ev, m) ==
   /\ (Success(ev) => (G!CostAgrees(m, ev.cd, ev.res) /\ G!MinCostOK(m, ev.res)))
@@ -133,6 +140,7 @@ JudgeGs(ev) ==
            \cup Chk(C11_Accepts(ev, m), "C11", "Accepts") \cup Chk(C12_Salt(ev, m), "C12", "Salt")
            \cup Chk(C09_Erased(ev, m), "C09", "EntropyErased"))
      \cup Chk(C10_Deterministic(ev), "C10", "Deterministic") \cup Chk(C10_Where(ev), "C10", "Where")
+     \cup Chk(C18_NullIsPreferred(ev), "C18", "NullIsPreferred")
      \cup Chk(C12_Flip(ev), "C12", "Flip") \cup Chk(C12_Entropy(ev), "C12", "Entropy")
      \cup Chk(C13_Local(ev), "C13", "Local") \cup Chk(C13_Monotone(ev), "C13", "Monotone")
      \cup Chk(C13_Full(ev), "C13", "Full") \cup Chk(C13_Enough(ev), "C13", "Enough")
